@@ -45,18 +45,21 @@ Proof.
   intro H. apply wellformedb_iff in H. discriminate.
 Qed.
 
-(* ---------------------------------------------------------------- F12: --fix 0 does not validate *)
+(* ---------------------------------------------------------------- F12 (repaired in /repo 0bbdd7f):
+   every --fix N validates, N = 0 included *)
 
 Definition w_f12_dir : dir :=
   [mkUtt w_feat (Some (mkAli false DI32 (A1 [0; 0; 1]))) None].
 
-Lemma cli_fix0_refuted :
-  exists d p, ~ WellFormed d /\ WellFormed (repair (Some 0) d) /\
-    cli_info false (Some 0) d = (d, inr p) /\
-    (* whereas tolerance 0 through the Python entry point repairs it *)
-    validate cfg_plain (FInt 0) d = (repair (Some 0) d, None).
+Lemma cli_fix_validates strict k : cli_validates strict (Some k) = true.
+Proof. unfold cli_validates. cbn. apply orb_true_r. Qed.
+
+Lemma cli_fix0_repairs :
+  exists p, ~ WellFormed w_f12_dir /\ WellFormed (repair (Some 0) w_f12_dir) /\
+    cli_info false (Some 0) w_f12_dir = (repair (Some 0) w_f12_dir, inr p) /\
+    validate cfg_plain (FInt 0) w_f12_dir = (repair (Some 0) w_f12_dir, None).
 Proof.
-  exists w_f12_dir. eexists.
+  eexists.
   split; [intro H; apply wellformedb_iff in H; discriminate|].
   split; [apply wellformedb_iff; reflexivity|].
   split; reflexivity.
@@ -249,7 +252,7 @@ Qed.
 
 Definition fixarg_of (fx : option Z) : fixarg := match fx with Some k => FInt k | None => FNone end.
 
-(* --strict / --fix N (N <> 0): same files afterwards and same raise/return as
+(* --strict / --fix N (any N): same files afterwards and same raise/return as
    validate_spect_data_set on a plain data set; the report is the fold of [info_upd] over the result *)
 Lemma cli_like_validate strict fx d :
   cli_validates strict fx = true -> classes_nonneg d ->
